@@ -15,6 +15,7 @@ import (
 func init() {
 	em := "internal/backends/compiler_wat/wir/instruction_emitter.go"
 	register(&Property{ID: "C01", Run: runC01, Mutants: []Mutant{
+		{Name: "append reallocates when it exactly fills the capacity", File: "internal/backends/compiler_wat/wir/value_slice.go", Old: "\tf.Insts = append(f.Insts, x.ExtractByName(\"c\").EmitPush()...)\n\tf.Insts = append(f.Insts, wat.NewInstLe(wat.U32{}))", New: "\tf.Insts = append(f.Insts, x.ExtractByName(\"c\").EmitPush()...)\n\tf.Insts = append(f.Insts, wat.NewInstLt(wat.U32{}))", Expect: "append-in-place-threshold"},
 		{Name: "unsigned division formats as div_s", File: "internal/backends/compiler_wat/wir/wat/instruction_arith.go", Old: "sb.WriteString(\"i32.div_u\")", New: "sb.WriteString(\"i32.div_s\")", Expect: "mnemonic-by-type :: instDiv"},
 		{Name: "u64 shr formats arithmetic", File: "internal/backends/compiler_wat/wir/wat/instruction_bit.go", Old: "sb.WriteString(\"i64.shr_u\")", New: "sb.WriteString(\"i64.shr_s\")", Expect: "mnemonic-by-type :: instShr"},
 		{Name: "u16 treated as signed wat type", File: "internal/backends/compiler_wat/wir/value_type.go", Old: "case *U32, *U8, *U16, *Bool:\n\t\treturn wat.U32{}", New: "case *U32, *U8, *Bool:\n\t\treturn wat.U32{}\n\tcase *U16:\n\t\treturn wat.I32{}", Expect: "kind-signedness :: U16"},
@@ -175,8 +176,8 @@ func runC01(c *Ctx) {
 		"(2) Wa basic kinds map to wat types of the right signedness; (3) each Wa operator token is lowered to its own OpCode and each OpCode arm of EmitBinOp/EmitUnOp builds that operation's instruction on the operand type with operands in source order; " +
 		"(4) results that can leave the range of u8/u16 (Add, Sub, Mul, Shl, unary -, unary ^) are masked with 255/65535 on every path; (5) mixed-width shifts adapt the count with wrap / unsigned extend; " +
 		"(6) the (source kind, destination kind) conversion matrix of EmitGenConvert emits the conversion Go's semantics require (sign/zero extension by source signedness, truncation signedness by destination, narrow masks); " +
-		"(7) constant materialisation parses each kind with its own signedness and bit size. " +
-		"NOT decided: anything value-level; control flow, closures, slices, strings, maps, interfaces, defer; the runtime library."
+		"(7) constant materialisation parses each kind with its own signedness and bit size; (8) the generated append helper reuses the backing array exactly when new_len <= cap (unsigned), which is what Go's append aliasing depends on. " +
+		"NOT decided: anything value-level; control flow, closures, the rest of slices, strings, maps, interfaces, defer; the runtime library."
 	c.Trusted = []string{"go/packages, go/types (x/tools v0.29.0)", "embedded WebAssembly instruction table", "Go conversion/operator semantics table in c01.go"}
 	p := c.Load(LoadOpt{Light: true}, "./internal/backends/compiler_wat/...")
 	watPk := p.MustPkg("mnemonic-by-type", "internal/backends/compiler_wat/wir/wat")
@@ -480,6 +481,34 @@ func runC01(c *Ctx) {
 
 	// ---- (6) conversion matrix
 	c01Conversions(c, p, wir)
+
+	// ---- (8) append reuses the backing array iff new_len <= cap
+	if s, fd := seqOf(p, wir, "Slice.genAppendFunc"); fd == nil {
+		c.Undecided("append-in-place-threshold", "Slice.genAppendFunc", "", "function not found")
+	} else {
+		// the comparison that feeds the first `if`: push new_len; push x.c; Le(U32)
+		verdict, detail := false, "the comparison of new_len with the capacity was not found"
+		for i := 2; i < len(s.Events); i++ {
+			e := s.Events[i]
+			if e.Kind != "ctor" || !(e.Name == "Le" || e.Name == "Lt" || e.Name == "Ge" || e.Name == "Gt") {
+				continue
+			}
+			a, b := s.Events[i-2], s.Events[i-1]
+			if a.Kind != "deleg" || b.Kind != "deleg" || a.Name != "EmitPush" || b.Name != "EmitPush" {
+				continue
+			}
+			isLen := strings.HasPrefix(a.Recv, "NewLocal(\"new_len\"")
+			isCap := strings.Contains(b.Recv, "ExtractByName(\"c\")")
+			if !isLen || !isCap {
+				continue
+			}
+			unsigned := len(e.Args) == 1 && strings.Contains(e.Args[0], "U32")
+			verdict = e.Name == "Le" && unsigned
+			detail = fmt.Sprintf("the helper compares new_len %s cap on %v", map[string]string{"Le": "<=", "Lt": "<", "Ge": ">=", "Gt": ">"}[e.Name], e.Args)
+			break
+		}
+		c.Check(verdict, "append-in-place-threshold", "Slice.genAppendFunc: new_len <= cap (u32)", p.Pos(fd.Pos()), "reuse iff new_len <= cap", detail+"; Go's append writes into the existing backing array exactly when the new length does not exceed the capacity (unsigned comparison): with another test an append that exactly fills the capacity reallocates, and slices sharing the array stop seeing each other's writes")
+	}
 
 	// ---- (7) constant bytes
 	if fd := p.MustFunc("const-bytes", wir, "aBasic.Bin"); fd != nil {
